@@ -84,4 +84,17 @@ AccOf(sw, m) == IF m \in DOMAIN sw.acc THEN sw.acc[m] ELSE 0
 \* markers of a sequence of merged groups for type bit v
 Markers(gs, v) == { [time |-> gs[i].ts,  delta |-> v,  g |-> i, v |-> v] : i \in DOMAIN gs } \cup
                   { [time |-> gs[i].end, delta |-> -v, g |-> i, v |-> v] : i \in DOMAIN gs }
+(***************************************************************************)
+(* Beyond the listed properties: a GPU kernel is attributed to the         *)
+(* innermost GPU user annotation of its (pid, tid) row that it overlaps    *)
+(* (half-open spans), "" when there is none.  Kernels or annotations of    *)
+(* zero length are left out: what an empty interval overlaps is not        *)
+(* defined by the documentation.                                           *)
+(***************************************************************************)
+SpanOverlap(a, k) == a.ts < k.ts + k.dur /\ k.ts < a.ts + a.dur
+AnnoOver(A, k) == { a \in A : a.pid = k.pid /\ a.tid = k.tid /\ a.dur > 0 /\ SpanOverlap(a, k) }
+LeafAnnoNames(A, k) == LET O == AnnoOver(A, k) IN
+                       IF O = {} THEN {""} ELSE { a.name : a \in { x \in O : \A y \in O : x.dur <= y.dur } }
+ZeroAnnoNear(A, k) == \E a \in A : a.pid = k.pid /\ a.tid = k.tid /\ a.dur = 0 /\ k.ts <= a.ts /\ a.ts <= k.ts + k.dur
+KernelAnnoOK(A, K) == \A k \in K : (k.dur > 0 /\ ~ZeroAnnoNear(A, k)) => k.anno \in LeafAnnoNames(A, k)
 =============================================================================
